@@ -22,7 +22,7 @@ def sample_lines(src, dst, n, seed):
     return total, len(lines)
 
 
-def cases_of(path):
+def cases_of(path, with_reset=False):
     """Yield the event lists of the cases of a trace file (split at reset events)."""
     cur = []
     with open(path) as f:
@@ -31,6 +31,8 @@ def cases_of(path):
                 continue
             e = json.loads(line)
             if e.get("k") == "reset":
+                if with_reset:
+                    cur.append(e)
                 yield cur
                 cur = []
             else:
